@@ -372,7 +372,345 @@ def _snapshot(body):
     return 0, "snapshot round trip preserves the timer state natively"
 
 
-handler("C13")(_snapshot)
+def _codec(body):
+    """C01 / C02 natively: plain bytes through the real decode(), the three architecture hooks, the
+    emulator fetch path and encode(); the obligations of contracts/codec.py re-evaluated on the
+    concrete results (same names)."""
+    from binja_test_mocks import binja_api  # noqa: F401
+    from sc62015 import arch as ARCH
+    from sc62015.pysc62015 import emulator as EMU
+    from sc62015.pysc62015.instr import opcodes as OPC
+    from sc62015.pysc62015.instr.opcode_table import OPCODES
+    from binja_test_mocks.tokens import asm_str
+    from binja_test_mocks.mock_llil import MockLowLevelILFunction as ILF
+    from contracts import codec as CD
+    unit, model = body["unit"], body["model"]
+    if model is None:
+        return 4, "no model"
+    L, want = unit["L"], unit.get("want", "C01")
+    lead = ([unit["b0"]] + ([unit["b1"]] if unit.get("b1") is not None else []))[:L]
+    data = bytes(lead + [int(model.get(f"b{i}", 0)) & 0xFF for i in range(len(lead), L)])
+    addr = int(model.get("addr", 0))
+    tpl0 = CD._snapshot_templates(OPCODES)
+    arch = ARCH.SC62015()
+    res = {}
+
+    def P(name, ok, detail=""):
+        res.setdefault(name, (bool(ok), detail))
+        if not ok:
+            res[name] = (False, detail)
+
+    def hook(fn):
+        try:
+            return "ok", fn()
+        except BaseException as e:  # noqa: BLE001
+            return "raised", e
+
+    outcome, instr = "ok", None
+    try:
+        instr = OPC.decode(data, addr, OPCODES)
+        if instr is None:
+            outcome = "reject"
+    except AssertionError:
+        outcome = "assert"
+    except OPC.InvalidInstruction:
+        outcome = "invalid"
+    except BaseException as e:  # noqa: BLE001
+        outcome = "crash"
+        P("decode:no-unexpected-error", False, f"{type(e).__name__}: {e}")
+    if outcome == "ok":
+        n = instr.length()
+        P("decode:length>=1", n >= 1)
+        P("decode:length<=supplied", n <= L, f"length {n} of {L} bytes")
+    s_info, info = hook(lambda: arch.get_instruction_info(data, addr))
+    s_text, text = hook(lambda: arch.get_instruction_text(data, addr))
+    il = ILF()
+    s_il, il_len = hook(lambda: arch.get_instruction_low_level_il(data, addr, il))
+    for nm, st, val in (("info", s_info, info), ("text", s_text, text), ("llil", s_il, il_len)):
+        P(f"hook:{nm}:no-exception", st == "ok", repr(val))
+    accepted = s_info == "ok" and info is not None
+    if accepted:
+        P("hooks:info-accepts=>decoder-accepts", outcome == "ok")
+        if outcome == "ok":
+            P("hooks:info-length=decoder-length", info.length == instr.length())
+        P("hooks:info-accepts=>text-accepts", s_text == "ok" and text is not None, f"info length {info.length}, text {text!r}")
+        P("hooks:info-accepts=>llil-accepts", s_il == "ok" and il_len is not None, f"info length {info.length}, llil {il_len!r}")
+        if s_text == "ok" and text is not None:
+            toks, tlen = text
+            P("hooks:text-length=info-length", tlen == info.length)
+            if outcome == "ok":
+                P("hooks:text-mnemonic", len(toks) > 0 and toks[0].text == instr.name())
+        if s_il == "ok" and il_len is not None:
+            P("hooks:llil-length=info-length", il_len == info.length)
+    if L == CD.FULL:
+        mem = {0x1000 + i: x for i, x in enumerate(data)}
+        emu = EMU.Emulator(EMU.Memory(lambda a: mem.get(a, 0), lambda a, v: mem.__setitem__(a, v)), reset_on_init=False)
+        s_f, fi = hook(lambda: emu.decode_instruction(0x1000))
+        P("fetch:no-exception", s_f == "ok", repr(fi))
+        if s_f == "ok":
+            if accepted and outcome == "ok":
+                P("fetch:same-name-and-length", fi.name() == instr.name() and fi.length() == instr.length(), f"{fi.name()}/{fi.length()} vs {instr.name()}/{instr.length()}")
+            if outcome in ("reject", "assert", "invalid"):
+                P("fetch:placeholder-when-rejected", fi.name() == f"UNK_{lead[0]:02X}" and fi.length() == 1, f"{fi.name()}/{fi.length()}")
+        if want == "C01":
+            for cut in range(0, CD.FULL):
+                s_c, ic = hook(lambda: arch.get_instruction_info(data[:cut], addr))
+                P(f"truncated:{cut}:no-exception", s_c == "ok", repr(ic))
+                if s_c != "ok":
+                    continue
+                if accepted and outcome == "ok":
+                    n = instr.length()
+                    if cut >= n:
+                        P(f"truncated:{cut}:same-result", ic is not None and ic.length == n)
+                    else:
+                        P(f"truncated:{cut}:rejected", ic is None)
+                elif ic is not None:
+                    P(f"truncated:{cut}:length-fits", ic.length <= cut)
+    P("templates-unchanged", CD._snapshot_templates(OPCODES) == tpl0, "OPCODES operand templates mutated by decoding these bytes")
+    if want == "C02" and outcome == "ok" and accepted:
+        n = instr.length()
+        s_e, enc = hook(lambda: OPC.encode(instr, addr))
+        P("encode:no-exception", s_e == "ok", repr(enc))
+        if s_e == "ok":
+            P("encode:length", len(enc) == n, f"{len(enc)} vs {n}")
+            if len(enc) == n:
+                for i in range(n):
+                    P(f"encode:byte{i}", enc[i] == data[i], f"encode gives {enc[i]:#04x}, decoded byte was {data[i]:#04x}")
+                s_r, re_i = hook(lambda: OPC.decode(bytes(enc), addr, OPCODES))
+                P("redecode:accepted", s_r == "ok" and re_i is not None)
+                if s_r == "ok" and re_i is not None:
+                    P("redecode:length", re_i.length() == n)
+                    t1, t2 = asm_str(instr.render()), asm_str(re_i.render())
+                    P("redecode:same-text", t1 == t2, f"{t1} vs {t2}")
+                    il1, il2 = ILF(), ILF()
+                    s1, _ = hook(lambda: instr.lift(il1, addr))
+                    s2, _ = hook(lambda: re_i.lift(il2, addr))
+                    P("redecode:same-il", s1 == s2 and repr(CD._il_plain(il1.ils)) == repr(CD._il_plain(il2.ils)))
+    bad = {k: d for k, (ok, d) in res.items() if not ok}
+    name = body.get("obligation")
+    hexs = data.hex()
+    if name in bad:
+        return 1, f"bytes {hexs} at {addr:#x}: {name} fails natively ({bad[name]})"
+    if bad:
+        k = sorted(bad)[0]
+        return 1, f"bytes {hexs} at {addr:#x}: {k} fails natively ({bad[k]}); {name} itself holds for this input"
+    if name not in res:
+        return 4, f"bytes {hexs}: obligation {name} has no native counterpart on this path"
+    return 0, f"bytes {hexs} at {addr:#x}: all {len(res)} obligations hold natively"
+
+
+def _mem(body):
+    """C11 natively: the law sequence on a real PCE500Memory built like the contract's configuration;
+    memory contents are a fixed pattern (the solver's array model is not carried over), so a run that
+    does not fail is reported as 'no failing input', not as 'holds'."""
+    import z3
+    from binja_test_mocks import binja_api  # noqa: F401
+    import pce500.memory as PM
+    from contracts import membus as MB
+    unit, model = body["unit"], body["model"]
+    if model is None or unit.get("kind") == "rust-standin":
+        return 4, "no model"
+    cfg = dict(MB.CONFIGS[unit["config"]])
+    pat = lambda k, n: bytearray(((i * 7 + k) & 0xFF) for i in range(n))
+    mem = PM.PCE500Memory()
+    mem.external_memory[:] = pat(3, len(mem.external_memory))
+    mem._card_data[:] = pat(5, len(mem._card_data))
+    if "card_present" in cfg:
+        mem._card_present = cfg["card_present"]
+    if "card_writable" in cfg:
+        mem._card_writable = cfg["card_writable"]
+    if cfg.get("rom"):
+        mem.load_rom(bytes(pat(9, cfg["rom"])))
+    for key in ("ram", "romov"):
+        if cfg.get(key) and cfg[key][0] == "sym":
+            cfg[key] = (int(model.get(f"{key}_start", 0)), cfg[key][1])
+    if cfg.get("ram"):
+        mem.add_ram(cfg["ram"][0], cfg["ram"][1], "extra_ram")
+    if cfg.get("romov"):
+        mem.add_rom(cfg["romov"][0], bytes(pat(11, cfg["romov"][1])), "extra_rom")
+    bv = lambda x: z3.BitVecVal(x, 64)
+    S = lambda t: z3.simplify(t)
+    a = int(model.get("a", 0))
+    name = body.get("obligation", "")
+    res = {}
+    if "size" in unit:
+        size = unit["size"]
+        val = int(model.get("val", 0x112233)) & ((1 << (8 * size)) - 1)
+        want = 0
+        for i in range(size):
+            want |= mem.read_byte(a + i) << (8 * i)
+        res[f"le:read_bytes{size}"] = (mem.read_bytes(a, size) == want, f"read_bytes({a:#x},{size}) vs composed {want:#x}")
+        if size == 2:
+            res["le:read_word"] = (mem.read_word(a) == want, "")
+        if size == 3:
+            res["le:read_long"] = (mem.read_long(a) == want, "")
+        import copy
+        m2 = copy.deepcopy(mem)
+        if size == 2 and unit.get("api") == "word":
+            mem.write_word(a, val)
+        elif size == 3 and unit.get("api") == "long":
+            mem.write_long(a, val)
+        else:
+            mem.write_bytes(size, a, val)
+        for i in range(size):
+            m2.write_byte(a + i, (val >> (8 * i)) & 0xFF)
+        same = bytes(mem.external_memory) == bytes(m2.external_memory) and bytes(mem._card_data) == bytes(m2._card_data)
+        for o1, o2 in zip(mem._bus._overlays, m2._bus._overlays):
+            if isinstance(o1.data, (bytes, bytearray)):
+                same = same and bytes(o1.data) == bytes(o2.data)
+        for k in ("external_memory", "_card_data", "extra_ram", "extra_rom"):
+            res[f"le:store{size}:{k}"] = (same, f"store of {val:#x} at {a:#x}: images differ from {size} byte stores")
+    else:
+        b, v = int(model.get("b", 0)), int(model.get("v", 0)) & 0xFF
+        for vv in (v, v ^ 0xFF, (v + 1) & 0xFF):
+            import copy
+            m = copy.deepcopy(mem)
+            r0, ra0 = m.read_byte(b), m.read_byte(a)
+            m.write_byte(a, vv)
+            r1, r2 = m.read_byte(a), m.read_byte(b)
+            ca, cb = S(MB.canon(bv(a))), S(MB.canon(bv(b)))
+            wr = z3.is_true(S(MB.writable(cfg, MB.canon(bv(a)))))
+            same = ca.eq(cb)
+            alias = z3.is_true(S(MB.alias_witness(bv(a), bv(b))))
+            cand = {
+                "rw:read-back": (not wr or r1 == vv, f"write {vv:#x} at {a:#x}, read back {r1:#x}"),
+                "ro:write-ignored": (wr or r1 == ra0, f"read-only {a:#x}: {ra0:#x} -> {r1:#x} after writing {vv:#x}"),
+                "frame:other-locations": (same or r2 == r0 or alias, f"write at {a:#x} changed {b:#x}: {r0:#x} -> {r2:#x}"),
+                "frame:ro-write-changes-nothing": (wr or r2 == r0, f"write to read-only {a:#x} changed {b:#x}"),
+                "canon:same-location-same-value": (not same or r2 == r1, f"aliases {a:#x}/{b:#x} read {r1:#x}/{r2:#x}"),
+            }
+            for k, (ok, d) in cand.items():
+                if k not in res or not ok:
+                    res[k] = (ok, d)
+    bad = {k: d for k, (ok, d) in res.items() if not ok}
+    base = name.split("@")[0]
+    if base in bad:
+        return 1, f"config {unit['config']}: {base} fails natively: {bad[base]}"
+    if bad:
+        k = sorted(bad)[0]
+        return 1, f"config {unit['config']}: {k} fails natively: {bad[k]}"
+    return 4, f"config {unit['config']}: the law sequence holds natively for a={a:#x} with pattern memory (array contents of the counter-model are not replayed)"
+
+
+def _irq(body):
+    """C12 natively: one real PCE500Emulator.step with the counter-model's IMR/ISR/pending/F/S."""
+    from binja_test_mocks import binja_api  # noqa: F401
+    import pce500.emulator as PE
+    from sc62015.pysc62015.emulator import RegisterName as RN
+    unit, model = body["unit"], body["model"]
+    if model is None or unit.get("kind") == "rust-standin" or unit.get("fn") not in ("unit_gate", "unit_halt"):
+        return 4, "no native replayer for this obligation"
+    halted = unit.get("fn") == "unit_halt"
+    in_irq = bool(unit.get("in_interrupt", False))
+    imr, isr = int(model.get("IMR", 0)) & 0xFF, int(model.get("ISR", 0)) & 0xFF
+    S, F = int(model.get("S", 0xB9800)), int(model.get("F", 0)) & 0xFF
+    pend = bool(model.get("pending", False))
+    VEC = 0x02345
+    emu = PE.PCE500Emulator(save_lcd_on_exit=False)
+    rom = bytearray(0x40000)
+    rom[0x3FFFA:0x3FFFD] = bytes([VEC & 0xFF, (VEC >> 8) & 0xFF, (VEC >> 16) & 0xFF])
+    emu.load_rom(bytes(rom))
+    emu.memory.write_byte(0x100000 + 0xFB, imr)
+    emu.memory.write_byte(0x100000 + 0xFC, isr)
+    for k in range(1, 6):
+        emu.memory.write_byte(S - k, 0xEE)
+    emu.cpu.regs.set(RN.PC, 0x1000)
+    emu.cpu.regs.set(RN.S, S)
+    emu.cpu.regs.set(RN.F, F)
+    emu._irq_pending, emu._in_interrupt, emu._key_irq_latched, emu._timer_enabled = pend, in_irq, False, False
+    emu.cpu.state.halted = halted
+    seen = []
+
+    class Info:
+        class instruction:
+            length = staticmethod(lambda: 1)
+            render = staticmethod(lambda: [])
+            name = staticmethod(lambda: "NOP")
+
+    def stub(pc):
+        seen.append(dict(pc=pc, s=emu.cpu.regs.get(RN.S), frame=[emu.memory.read_byte(S - k) for k in range(1, 6)],
+                         imr=emu.memory.read_byte(0x100000 + 0xFB)))
+        return Info()
+    emu.cpu.execute_instruction = stub
+    emu.cpu.decode_instruction = lambda pc: Info.instruction
+    emu.step()
+    res = {}
+    if halted:
+        woke = not emu.cpu.state.halted
+        res["halt:wakes-iff-status-pending"] = (woke == (isr != 0), f"ISR={isr:#x}: halted after the step = {not woke}")
+        if not woke:
+            res["halt:executes-nothing"] = (len(seen) == 0, "")
+    else:
+        at = seen[0] if seen else dict(pc=emu.cpu.regs.get(RN.PC), s=emu.cpu.regs.get(RN.S), frame=[emu.memory.read_byte(S - k) for k in range(1, 6)], imr=emu.memory.read_byte(0x100000 + 0xFB))
+        delivered = at["s"] == S - 5
+        gate = pend and not in_irq and (imr & 0x80) != 0 and (imr & isr & 0x7F) != 0
+        ctx = f"IMR={imr:#04x} ISR={isr:#04x} pending={pend} F={F:#x} S={S:#x}"
+        res["gate:delivered=>enabled-and-pending"] = (not delivered or gate, f"{ctx}: interrupt taken")
+        res["gate:enabled-and-pending=>delivered"] = (not gate or delivered, f"{ctx}: deliverable request not taken at this step boundary")
+        res["gate:either-5-bytes-or-nothing"] = (delivered or at["s"] == S, f"{ctx}: S -> {at['s']:#x}")
+        if delivered:
+            fr = at["frame"]      # S-1 .. S-5
+            res["deliver:frame-is-PC-F-IMR"] = (fr == [0x00, 0x10, 0x00, F, imr], f"{ctx}: frame (S-1..S-5) = {[hex(x) for x in fr]}")
+            res["deliver:clears-master-enable"] = (at["imr"] == (imr & 0x7F), f"{ctx}: IMR at the handler = {at['imr']:#x}")
+            res["deliver:continues-at-vector"] = (at["pc"] == VEC, f"{ctx}: PC = {at['pc']:#x}")
+            res["deliver:pending-cleared"] = (not emu._irq_pending, ctx)
+        else:
+            res["no-delivery:nothing-written"] = (at["frame"] == [0xEE] * 5 and at["imr"] == imr, f"{ctx}: stack/IMR changed")
+            res["no-delivery:pc-unchanged"] = (at["pc"] == 0x1000, f"{ctx}: PC = {at['pc']:#x}")
+            res["no-delivery:pending-kept"] = (not pend or bool(emu._irq_pending), f"{ctx}: pending request dropped")
+        res["executes-exactly-one-instruction"] = (len(seen) == 1, f"{len(seen)} instructions")
+    bad = {k: d for k, (ok, d) in res.items() if not ok}
+    base = body.get("obligation", "").split("@")[0]
+    if base in bad:
+        return 1, f"{base} fails natively: {bad[base]}"
+    if bad:
+        k = sorted(bad)[0]
+        return 1, f"{k} fails natively: {bad[k]}"
+    return (0 if base in res else 4), "the step obligations hold natively for this input"
+
+
+def _sched(body):
+    """C13 natively: TimerScheduler.advance on plain ints vs. the closed form of its contract;
+    snapshot restore point through a real file."""
+    unit, model = body["unit"], body["model"]
+    if unit.get("kind") == "snapshot-restore":
+        return _snapshot(body)
+    if model is None or "enabled" not in unit or unit.get("kind") not in (None,):
+        return 4, "no native replayer for this obligation"
+    from binja_test_mocks import binja_api  # noqa: F401
+    import pce500.scheduler as SCH
+    mp, sp, nm, ns, cyc = (int(model.get(k, 0)) for k in ("mti_period", "sti_period", "next_mti", "next_sti", "cycle"))
+    en = bool(unit["enabled"])
+    sch = SCH.TimerScheduler.__new__(SCH.TimerScheduler)
+    sch.mti_period, sch.sti_period, sch.enabled = mp, sp, en
+    sch._next_mti, sch._next_sti = nm, ns
+    try:
+        fired = list(sch.advance(cyc))
+    except BaseException as e:  # noqa: BLE001
+        return 1, f"advance({cyc}) raised {type(e).__name__}: {e}"
+
+    def law(per, nxt):
+        f = en and per > 0 and cyc >= nxt
+        return f, (nxt + ((cyc - nxt) // per + 1) * per if f else nxt)
+    wm, wnm = law(mp, nm)
+    ws, wns = law(sp, ns)
+    gm = any(getattr(x, "name", str(x)).endswith("MTI") for x in fired)
+    gs = any(getattr(x, "name", str(x)).endswith("STI") for x in fired)
+    bad = []
+    if (gm, gs) != (wm, ws):
+        bad.append(f"fired (mti={gm}, sti={gs}), contract (mti={wm}, sti={ws})")
+    if sch._next_mti != wnm or sch._next_sti != wns:
+        bad.append(f"targets ({sch._next_mti}, {sch._next_sti}), contract ({wnm}, {wns})")
+    ctx = f"periods {mp}/{sp}, targets {nm}/{ns}, enabled={en}, advance({cyc})"
+    if bad:
+        return 1, f"{ctx}: " + "; ".join(bad)
+    return 0, f"{ctx}: contract holds natively"
+
+
+handler("C13")(_sched)
+handler("C01", "C02")(_codec)
+handler("C11")(_mem)
+handler("C12")(_irq)
 handler("C03", "C04")(_cpu)
 handler("C07")(_cpu_hist)
 handler("C08")(_regs)
